@@ -293,7 +293,13 @@ def replay_history(case, history):
                             break
         if last:
             vs += invariant(params, case, leaf, f"after {ev}")
-    return core.digest(state_of(params)), vs, {"outcome": [float(params.get(l).value) for l in labels]}
+    # The digest must cover hidden state too, otherwise histories are merged that have different futures:
+    # (a) all parameter fields, (b) whether the object was produced by copy() (a copy may share state with its
+    # source that no field shows), (c) which object the expression interpreter is bound to.
+    ev = getattr(params, "_evaluator", None)
+    bound = getattr(ev, "symtable", {}).get("parameters") is params if ev is not None else None
+    dg = core.digest([state_of(params), any(e[0] == "copy" for e in history), bound])
+    return dg, vs, {"outcome": [float(params.get(l).value) for l in labels]}
 
 
 def case_graph_histories(case):
